@@ -56,6 +56,14 @@ CLAIMED = {
         "remainder, a fallback (an outer variable) is used only for an absent component; SMT-decided per path, native replay.",
         "8 array patterns x arrays of 0..3 items, 6 tuple patterns x tuples over {x,y,z}, 4 set patterns x subsets of {0,1,2}; "
         "dict patterns, nesting, repeated names and compilePattern (AST -> pattern) are outside the registered bound"),
+    "C11": (
+        "Narrow: two guest goroutines under the executor's cooperative scheduler (all interleavings within a context bound of 2 "
+        "preemptions) share one value and perform the first use of its lazily cached state (GenericTuple Names/ordered names/"
+        "bucket, positionalRelation index cache through two concurrent joins); a vector-clock happens-before detector over the "
+        "interpreted memory reports unordered conflicting accesses, and results are compared with the serial ones. Races are "
+        "confirmed natively with `go test -race`.",
+        "2 goroutines x 1 operation; preemption at synchronisation operations only; sync.Once/Mutex/Cond/WaitGroup/atomic/channels "
+        "modelled per the Go memory model; the std-scope/bindata lazies in syntax and frozen's parallel fan-out are outside"),
     "C12": (
         "Partial (string-literal codec kernel): bounded symbolic execution of the real printer (String/Bytes/Array.Format, "
         "reprString/reprStr/reprEscape) and the real literal reader syntax.parseArraiString: every string of 1..2 arbitrary "
@@ -76,6 +84,20 @@ CLAIMED = {
         "in all three representations against textbook definitions; SMT-decided per path, counterexamples replayed natively.",
         "subject length <=4 (predicates) / <=3, pattern <=3 / <=2; alphabet {0,1,2}; strings.Index/bytes.Index and UTF-8 coding "
         "are executor intrinsics written from their definitions"),
+    "C16": (
+        "Partial (import-cache kernel): the real importCache.getOrAdd under the executor's scheduler with stub add callbacks: "
+        "two concurrent importers of one key agree and import once, a failing import wakes its waiters, and a re-entrant import "
+        "(cycle of length 1 or 2) must return instead of waiting on itself (listed known finding: it hangs). Deadlocks are "
+        "confirmed natively by timeout.",
+        "2 goroutines, context bound 2; path confinement of local imports and value consistency across spellings need the "
+        "compiler/filesystem layers and are outside the registered bound"),
+    "C17": (
+        "Bounded exploration of client histories x interleavings of the real engine.Start actor loop (Update/Observe/cancel/"
+        "Hangup/Stop, watcher.update/close) as guest goroutines under the executor's scheduler: every request returns, accepted "
+        "updates are seen by each live observer in order since it subscribed, an observer is closed at most once and hears "
+        "nothing afterwards, failing updates are reported, no deadlock or crash. Deadlocks/crashes are confirmed natively.",
+        "1 client x 1..3 operations out of 8, <=3 observers, context bound 2 (3 thorough); expressions are stubs whose failure is "
+        "chosen per history; logrus and the run context are no-op stubs; gRPC/WebSocket transport outside"),
     "C20": (
         "Bounded exploration by the symbolic executor of the real RunExpr/ForeachLeaf/isLiteralTrue/isLiteralFalse/calcStats over "
         "every result tree of depth <=2 and width <=2 built through the real constructors (tuples, offset arrays, dicts; leaves "
